@@ -202,8 +202,9 @@ class Portfolio:
         # first try: primary solver with short timeout, then the others with the full one, then two long last attempts
         # (they only cost time when an obligation is about to be reported as not discharged, e.g. on a loaded machine)
         isfp = 'FloatingPoint' in txt or 'fp.' in txt
-        plan = [(solvers[0], self.timeout if isfp else min(self.timeout, 4))] + [(s, self.timeout) for s in solvers[1:]] + [(solvers[0], self.timeout)]
-        plan += [(solvers[0], 3 * self.timeout), (solvers[1], 3 * self.timeout)]
+        T = max(self.timeout, ob.meta.get('timeout', 0))          # (an obligation may ask for more than the tier's default)
+        plan = [(solvers[0], T if isfp else min(T, 4))] + [(s, T) for s in solvers[1:]] + [(solvers[0], T)]
+        plan += [(solvers[0], 3 * T), (solvers[1], 3 * T)]
         decided = None
         if getattr(ob, 'smt2_rel', None) and ob.kind == 'proof':
             rpath = path[:-5] + '-rel.smt2'
